@@ -24,9 +24,13 @@ def respell(smiles, rnd):
     m = chem.mol(smiles)
     if m is None:
         return smiles
+    if smiles in ("[H][H]", "[HH]"):
+        return rnd.choice(["[H][H]", "[HH]"])
     if rnd.random() < 0.4:
         for i, a in enumerate(m.GetAtoms()):
             a.SetAtomMapNum(i + 1)
+    if rnd.random() < 0.15:
+        m = Chem.AddHs(m)  # hydrogens written out as atoms: '[H]Cl' is 'Cl'
     try:
         return Chem.MolToSmiles(m, canonical=False, doRandom=True, kekuleSmiles=rnd.random() < 0.3)
     except Exception:
@@ -42,7 +46,21 @@ def variant(rsmi, rnd):
     return ">>".join(sides)
 
 
+def h2(s):
+    return s.replace("[H][H]", "[HH]")
+
+
 def judge_variants(r, rnd, n):
+    bad = judge_variants_(r, rnd, n)
+    if bad and bad.startswith("variant "):
+        # known finding (by mechanism): nothing but the two spellings of molecular hydrogen distinguishes the normal forms
+        v = bad.split("'")[1]
+        if norm(v) != norm(r) and h2(norm(v)) == h2(norm(r)):
+            return "H2:" + bad
+    return bad
+
+
+def judge_variants_(r, rnd, n):
     n0 = norm(r)
     if norm(n0) != n0:
         return "normalisation is not idempotent: %r -> %r -> %r" % (r, n0, norm(n0))
@@ -50,7 +68,7 @@ def judge_variants(r, rnd, n):
         v = variant(r, rnd)
         nv = norm(v)
         if nv != n0:
-            return "variant %r of %r normalises to %r instead of %r" % (v, r, nv, n0)
+            return "variant '%s' of %r normalises to %r instead of %r" % (v, r, nv, n0)
         for m in METHODS:
             s = sim(r, v, m)
             if s != 1:
@@ -99,15 +117,23 @@ def check(run):
         built.append("CC>>%s.%s.%s" % (a, b, a))
     if run.tier == "quick":
         built = rnd.sample(built, 80)
-    fails, cases = [], 0
+    # the validation set spells hydrogen halides and protonated amines with explicit hydrogen atoms
+    built += ["CC(=O)Cl.O>>CC(=O)O.[H]Cl", "ClC(C1=CC=CC=C1)=O.C1=CC=CC=C1>>O=C(C1=CC=CC=C1)C2=CC=CC=C2.[H]Cl", "[H]O[H].CC#N>>CC(N)=O",
+              "CCN(CC)CC.BrC1CCOC1=O>>O=C2OCC=C2.CC[N+](CC)([H])CC.[Br-]", "S[H].CC1=CC=C(N(=O)=O)C=C1>>NC2=CC=C(C=C2)C=O.O.[S]", "C=C.[H][H]>>CC"]
+    fails, cases, h2_fails = [], 0, []
     for r in base + built:
         cases += 1
         try:
             bad = judge_variants(r, rnd, 3 if run.tier == "quick" else 10)
         except Exception as e:
             bad = "raised %r for %r" % (e, r)
-        if bad and len(fails) < 8:
+        if bad and bad.startswith("H2:"):
+            h2_fails.append((None, bad[3:]))
+        elif bad and len(fails) < 8:
             fails.append(({"kind": "variants", "reaction": r, "seed": run.seed}, bad))
+    if norm("C=C.[HH]>>CC") != norm("C=C.[H][H]>>CC"):
+        h2_fails.append((None, "normalize_smiles('C=C.[HH]>>CC') != normalize_smiles('C=C.[H][H]>>CC')"))
+    run.bounded("dihydrogen-spelling", "the variants whose normal forms differ only in '[HH]' vs '[H][H]'", len(h2_fails) + 1, 1, h2_fails[:1], False)
     run.bounded("order-and-spelling", "%d stereo-free corpus reactions and %d reactions built from %d isomers (anagram pairs included), each with random "
                 "permutations / re-spellings (random atom order, kekulised, atom maps)" % (len(base), len(built), len(isomers)),
                 cases, len(set(base + built)), fails, False, [{"reaction": built[0], "normal_form": norm(built[0])}])
